@@ -398,7 +398,8 @@ fn inject(cfg: &Cfg, victim: &Sys, side: usize, ix: &[usize]) -> InjectOutcome {
         ix[4]
     );
     // window: first transmissions stay inside the window the peer last validly advertised
-    if let (Some(wnd_ref), Some(sa)) = (ref_window_after(&sn, &seg), n.side[side].snap()) {
+    // the independent reference where it decides, else the RFC rule over the recorded WL1/WL2
+    if let (Some(wnd_ref), Some(sa)) = (wnd_ref.or_else(|| ref_window_after(&sn, &seg)), n.side[side].snap()) {
         for s in &out {
             let l = s.text.len() as u32;
             if l == 0 || !mod_geq(s.header.seq, nxt_before) {
